@@ -156,10 +156,10 @@ def mxCreateDoubleScalar (value : BitVec 64) : MxArray :=
 def cstr (s : List Byte) : List Byte := s.takeWhile (· != 0)
 
 /-- `mxCreateString(p)`: a 1×N char array (N = strlen p), each `char` widened (as unsigned)
-    to a 16-bit `mxChar`, stored little-endian. -/
+    to a 16-bit `mxChar`, stored little-endian.  The empty string is the 0×0 char array (MATLAB's `''`). -/
 def mxCreateString (p : List Byte) : MxArray :=
   let s := cstr p
-  { classId := .char, m := 1, n := s.length, complex := false,
+  { classId := .char, m := (if s.isEmpty then 0 else 1), n := s.length, complex := false,
     data := s.flatMap (fun b => [b, 0]) }
 
 def mxGetM (a : MxArray) : Nat := a.m
